@@ -28,15 +28,15 @@ from vf.xmlkit import deep_eq
 ID = "C14"
 LEVEL = "exploration"
 RULE = (
-    "case = a sequence of operations (parse/serialize/decode/encode, succeeding or failing, over a pool of ~36 operations on "
+    "case = a sequence of operations (parse/serialize/decode/encode, succeeding or failing, over a pool of 56 operations on "
     "models that share classes between roles) applied to shared instances, each step compared with the same operation on fresh "
-    "instances. Every sequence of length <= 3 over the pool is enumerated (quick: a deterministic 1/8 slice per seed of the length-3 "
+    "instances and with its outcome in a forked process that has performed nothing else (process-wide state). Every sequence of length <= 3 over the pool is enumerated (quick: a deterministic 1/8 slice per seed of the length-3 "
     "sequences, complete for lengths 1-2; thorough: complete), plus seeded random sequences of length 10-60 including module loads "
     "in mid-sequence. Non-trivial = sequence length >= 2; distinct = distinct operation sequences."
 )
 ASSUMPTIONS = [
     "parser.ns_map (instance attribute) is documented state, only caller-supplied ns_map arguments are compared",
-    "process-wide pure lru_caches and the converter registry are shared by 'fresh' instances too",
+    "process-wide pure lru_caches and the converter registry are shared by 'fresh' instances too: drift in them is observed against per-operation baselines taken in forked children before the shard ran anything",
     "classes without Meta.namespace used under parents with different namespaces are the open known finding (dedicated probe), not part of the pool",
     "modules are only added during a sequence (the index is refreshed when len(sys.modules) changes)",
 ]
@@ -183,6 +183,9 @@ DOCS = {
     "item-xsi-root-g": f'<g:item xmlns:g="{I}" xmlns:xsi="{XSI}" xsi:type="g:itemExt" id="12"/>',
     "mix": f'<i:mix xmlns:i="{I}" xmlns:o="urn:vf:c14:o"><i:first>x</i:first><i:a>7</i:a><i:b>s</i:b><i:price currency="USD">1.50</i:price><o:z/><i:last>9</i:last></i:mix>',
     "price": f'<i:price xmlns:i="{I}" currency="EUR">2.25</i:price>',
+    "pet-dog": "<pet><animal><bark>woof</bark><name>rex</name></animal><tag>1</tag></pet>",
+    "pet-cat-bad-tag": "<pet><animal><lives>9</lives></animal><tag>many</tag></pet>",
+    "typed-reading": "<typedReading><value>21.5</value></typedReading>",
     "nums": "<nums><a>1</a><b>2.5</b><t>1 2 3</t></nums>",
     "nums-bad": "<nums><a>x</a></nums>",
     "nums-missing": "<nums><b>1.0</b></nums>",
@@ -195,6 +198,8 @@ JSONS = {
     "nums": {"a": 1, "b": 2.5, "t": [1, 2]},
     "nums-unknown-key": {"a": 1, "zzz": 1},
     "nums-bad": {"a": "x"},
+    "pet-dog": {"animal": {"bark": "woof", "name": "rex"}, "tag": 1},
+    "pet-cat-bad-tag": {"animal": {"lives": 9}, "tag": "many"},
 }
 
 
@@ -209,10 +214,12 @@ def objects():
         "not-a-model": object(),
         "mix": M.Mix(first="x", choice=[7, "s", 8], price=M.Price(value=Decimal("1.50"), currency="USD"), last=9),
         "price": M.Price(value=Decimal("2.25"), currency="EUR"),
+        "pet": M.Pet(animal=M.Dog(bark="woof"), tag=2),
+        "reading-subclass-value": M.Reading(value=M.Celsius(21.5), unit="C"),
     }
 
 
-CLASSES = {"Item": M.Item, "ItemExt": M.ItemExt, "Box": M.Box, "Wild": M.Wild, "Nums": M.Nums, "Mix": M.Mix, "Price": M.Price, None: None}
+CLASSES = {"Pet": M.Pet, "Reading": M.Reading, "TypedReading": M.TypedReading, "Item": M.Item, "ItemExt": M.ItemExt, "Box": M.Box, "Wild": M.Wild, "Nums": M.Nums, "Mix": M.Mix, "Price": M.Price, None: None}
 OPS = []
 for _doc, _cls in [("item", "Item"), ("item", None), ("item-default-ns", "Item"), ("itemext", "ItemExt"), ("itemext", "Item"), ("itemext", None), ("box-plain", "Box"), ("box-xsi", "Box"),
                    ("box-xsi-list", "Box"), ("box-xsi-list", None), ("box-unknown-xsi", "Box"), ("box-unknown-prop", "Box"), ("wild-1", "Wild"), ("wild-2", "Wild"), ("wild-own-ns", "Wild"),
@@ -228,6 +235,10 @@ for _j, _cls in [("box", "Box"), ("item", "Item"), ("item", None), ("nums", "Num
     OPS.append(("decode", _j, _cls, len(OPS) % 2 == 0))
 for _o in ["box-derived", "nums", "item"]:
     OPS.append(("encode", _o, len(OPS) % 2 == 0))
+# candidate trials of a union-of-classes field (strict private config) next to lenient conversions on the same instances;
+# a value whose class is an unregistered subclass of a supported type next to a model that declares that subclass as a field type
+OPS += [("parse", "pet-dog", "Pet", "native", False), ("parse", "pet-cat-bad-tag", "Pet", "lxml", False), ("decode", "pet-dog", "Pet", False), ("decode", "pet-cat-bad-tag", "Pet", True),
+        ("serialize", "pet", "native", False), ("serialize", "reading-subclass-value", "lxml", False), ("encode", "reading-subclass-value", True), ("parse", "typed-reading", "TypedReading", "native", False)]
 LATE_OPS = [("load-late",), ("parse-late",), ("decode-late",), ("parse-twin",)]
 
 
@@ -298,6 +309,43 @@ def load_late(late_state):
     late_state["mods"].append(name)
 
 
+PRISTINE = {}
+
+
+def pristine_outcomes(ops):
+    """Outcome of each pool operation in a process that has performed no other operation: one forked
+    child per operation, forked before this process ran anything. Fresh instances created later in this
+    process still share its process-wide state (converter registry, lru_caches on the qname helpers,
+    class-level memos), so comparing a used instance with a fresh one cannot see that state drift; this can."""
+    import os
+    import pickle
+
+    out = {}
+    for op in ops:
+        r, w = os.pipe()
+        pid = os.fork()
+        if pid == 0:
+            code = 0
+            try:
+                os.close(r)
+                res = run_op(Instances(), op, objects(), {"n": None})
+                with os.fdopen(w, "wb") as f:
+                    f.write(pickle.dumps(res))
+            except BaseException:  # noqa: BLE001
+                code = 3
+            finally:
+                os._exit(code)
+        os.close(w)
+        with os.fdopen(r, "rb") as f:
+            data = f.read()
+        os.waitpid(pid, 0)
+        try:
+            out[op] = pickle.loads(data) if data else None
+        except Exception:  # noqa: BLE001
+            out[op] = None
+    return out
+
+
 def same_outcome(a, b):
     if a[0] != b[0]:
         return f"{a[0]} vs {b[0]}: {str(a[1:3])[:200]} vs {str(b[1:3])[:200]}"
@@ -336,6 +384,13 @@ def run_sequence(ctx, seq, label):
             if d:
                 ctx.violation(f"history-dependent/{op[0]}/{op[1] if len(op) > 1 else ''}/{d.split(':')[0]}", f"step {step} of {[o[:3] for o in seq]}: fresh vs shared: {d}", w)
                 break
+            if PRISTINE.get(op) is not None:
+                ctx.hook("pristine-process-comparison")
+                d = same_outcome(PRISTINE[op], got)
+                if d:
+                    ctx.violation(f"history-dependent/process-wide/{op[0]}/{op[1] if len(op) > 1 else ''}/{d.split(':')[0]}",
+                                  f"step {step} of {[o[:3] for o in seq]}: in a process that has done nothing else vs here on shared instances (fresh instances in this process agree with the shared ones: the state is process-wide): {d}", w)
+                    break
             if _hook_violations:
                 k, msg = _hook_violations[0]
                 ctx.violation(f"hook/{k}", f"after step {step} of {[o[:3] for o in seq]}: {msg}", w)
@@ -375,6 +430,8 @@ def coverage_extra(coverage, tier):
 def run_shard(ctx):
     install_hooks(ctx)
     rng = ctx.rng
+    PRISTINE.update(pristine_outcomes(OPS))
+    ctx.extra["pristine_baselines"] = sum(1 for v in PRISTINE.values() if v is not None)
     if ctx.shard == 0:
         ctx.evals()
         try:
